@@ -128,7 +128,7 @@ void pairCase(const NamedSet &A, const NamedSet &B)
         nSetChecks += 12;
     }
     // add/remove single bytes
-    for (int c : {0, 1, 127, 128, 255, 'a'}) {
+    for (int c : {0, 1, 127, 128, 255, 97}) {
         CharacterSet x = A.real;
         Bits r = A.ref;
         x.add((unsigned char)c); r.set(c);
